@@ -33,7 +33,7 @@ Inductive alt : value -> value -> Prop :=
 | alt_frozen : forall xs ys, scover xs ys -> scover ys xs -> alt (VFrozen xs) (VFrozen ys).
 
 (* the guard: every dict that is compared has good kept keys (pairwise different
-   for Python and after cleaning, cleanable - K8 -, not bytes unless decoded - F5) *)
+   for Python and after cleaning, cleanable - K8) *)
 Fixpoint guard (v : value) : bool :=
   match v with
   | VAtom _ | VSet _ | VFrozen _ => true
@@ -137,7 +137,7 @@ Qed.
 
 (* dicts: reports of added / removed keys *)
 Lemma key_reports_all_mem : forall kind cks other km kvs p1 p2,
-  (forall k, In k cks -> mem_atom k other = true) -> key_reports F kind cks other km kvs p1 p2 = Ok [].
+  (forall k, In k cks -> mem_atom k other = true) -> key_reports F kind cks other km kvs p1 p2 = [].
 Proof.
   induction cks as [|k r IH]; intros other km kvs p1 p2 H; cbn [key_reports]; [reflexivity|].
   rewrite (H k (or_introl eq_refl)). apply IH. intros x Hx. apply H. right. exact Hx.
@@ -216,8 +216,8 @@ Proof.
       apply mem_atom_In. exists (ckey F k'). split; [apply in_map; exact Hk'|].
       apply ckey_altK; auto. }
     rewrite (shortcutF_cover c _ _ thr_ok M2 M1).
-    rewrite (key_reports_all_mem KDictAdd _ _ km2 kvs2 p1 p2 M2). cbn [bind].
-    rewrite (key_reports_all_mem KDictRem _ _ km1 kvs p1 p2 M1). cbn [bind].
+    rewrite (key_reports_all_mem KDictAdd _ _ km2 kvs2 p1 p2 M2).
+    rewrite (key_reports_all_mem KDictRem _ _ km1 kvs p1 p2 M1).
     (* the common keys *)
     match goal with |- bind ?G _ = _ => assert (G = Ok ([], [])) as Hgo end.
     { assert (forall k v, In (k, v) kvs -> keep_key c k = true -> In (k, v) (kept c kvs)) as Hsub
@@ -242,7 +242,6 @@ Proof.
       subst ck'.
       rewrite (Eo2 k' Hk').
       rewrite (assoc_kept c kvs2 k' v' Hn2 Hin').
-      rewrite (ckey_not_bytes F k' (Hok2 k' Hk') : bytes_key (ckey F k') = false).
       rewrite (Hx v' _ _ Hav (guard_dict_val _ _ _ Hg1 Hkv) (guard_dict_val _ _ _ Hg2 Hin')).
       reflexivity. }
     rewrite Hgo. reflexivity.
